@@ -3,9 +3,25 @@
 
   Model: `Cmr/Rel.lean` (`Step`, `Step.apply`, `applySteps`, the relation table `Step.rel` / `stepsRel`, `sumRel`).
   The checker (`checkRelations` in `Cmr/Judge.lean`) compares verdict(M) of class `c` with the verdict of the class
-  `(stepsRel c steps).1` on `g(M)` according to `(stepsRel c steps).2`.  The theorems below justify the table for the
-  verdict oracles of the model: `isTU` (class `tu`), `isRegular` (class `reg`), `isBalanced` (class `bal`), and the sum
-  relations for `tu`.
+  `(stepsRel c steps).1` on `g(M)` according to `(stepsRel c steps).2` (`iff`: equal, `imp`: yes ⇒ yes, `none`: nothing),
+  for ternary `M` (and 0/1 `M` for the binary-only classes).  The theorems below justify the table for the verdict
+  oracles of the model:
+    §1 shapes; §2 algebra of the table (`Rel.seq`, `stepsRel` of a concatenation, `Cls.dual`);
+    §3 `isTU` (class `tu`): every non-pivot step, lifted to step lists; §3b the GF(3) pivot and the lift to *all* step
+       lists for ternary inputs;
+    §4 transposition duality (`gra`/`cog`, `net`/`con`: the model has one oracle per pair, the dual class is the oracle
+       on the transpose — `isCographic`, `isConetwork` in `RelLemmas`);
+    §5 `isRegular` (class `reg`), §6 `isBalanced` (class `bal`), §8 `isSPgreedy` (classes `spb`, `spt`): every
+       non-pivot step with table entry `iff`/`imp`, lifted to step lists;
+    §7 the sum relations for `tu` (corollaries of C12).
+  No 0/1 or ternarity hypothesis is needed except for the GF(3) pivot (`tu_V3`): the oracles answer `no` on matrices
+  with other entries, before and after every non-pivot step.
+  Helper definitions (all in `CmrProofs/Lemmas/RelLemmas.lean`): `Step.isPivot` (`V2`/`V3`), `Step.rowInsOk m n s pos` /
+  `Step.colInsOk` (the step is an applicable row/column insertion before `pos`), `Step.newRow n M s` / `Step.newCol M s`
+  (the inserted line, exactly as in `Step.apply`), `Step.unitSign` (the sign of a `U`/`D` step is `+1`), `spCls t`
+  (`spt` for `t = true`, `spb` for `t = false`).
+  Not covered: the GF(2) pivot for `reg`/`gra`/`cog`/`spb`, the GF(3) pivot for `net`/`con`/`spt`, the non-transposition
+  steps for `gra`/`cog`/`net`/`con` (the brute-force graphicness oracle), the class `cam`, sums for classes other than `tu`.
 -/
 import CmrProofs.Lemmas.RelLemmas
 import CmrProofs.Props.C12
@@ -105,6 +121,31 @@ theorem tu_colInsertion {m n : Nat} {M : Mat} (hwf : M.wf m n = true) {s : Step}
   have hp : pos ≤ n := by cases s <;> simp only [Step.colInsOk] at hs <;> first | exact hs.2 | exact hs.2.1
   exact isTU_insertCol hwf hp _ (newCol_colFrom hs)
 
+/-- The six insertions spelled out: a zero row, the row `s·e_j`, the row `s·(row i)` (`s = ±1`), and the same for columns. -/
+theorem tu_ZR {m n : Nat} {M : Mat} (hwf : M.wf m n = true) {pos : Nat} (hp : pos ≤ m) :
+    isTU (m + 1) n (insertRow M pos (List.replicate n 0)) = isTU m n M :=
+  tu_rowInsertion hwf (s := .ZR pos) ⟨rfl, hp⟩
+
+theorem tu_UR {m n : Nat} {M : Mat} (hwf : M.wf m n = true) {pos j : Nat} {s : Int} (hp : pos ≤ m) (hj : j < n)
+    (hs : s = 1 ∨ s = -1) : isTU (m + 1) n (insertRow M pos (unitVec n j s)) = isTU m n M :=
+  tu_rowInsertion hwf (s := .UR pos j s) ⟨rfl, hp, hj, hs⟩
+
+theorem tu_DR {m n : Nat} {M : Mat} (hwf : M.wf m n = true) {pos i : Nat} {s : Int} (hp : pos ≤ m) (hi : i < m)
+    (hs : s = 1 ∨ s = -1) : isTU (m + 1) n (insertRow M pos ((M.getD i []).map (s * ·))) = isTU m n M :=
+  tu_rowInsertion hwf (s := .DR pos i s) ⟨rfl, hp, hi, hs⟩
+
+theorem tu_ZC {m n : Nat} {M : Mat} (hwf : M.wf m n = true) {pos : Nat} (hp : pos ≤ n) :
+    isTU m (n + 1) (insertCol M pos (fun _ => 0)) = isTU m n M :=
+  tu_colInsertion hwf (s := .ZC pos) ⟨rfl, hp⟩
+
+theorem tu_UC {m n : Nat} {M : Mat} (hwf : M.wf m n = true) {pos i : Nat} {s : Int} (hp : pos ≤ n) (hi : i < m)
+    (hs : s = 1 ∨ s = -1) : isTU m (n + 1) (insertCol M pos (fun k => if k == i then s else 0)) = isTU m n M :=
+  tu_colInsertion hwf (s := .UC pos i s) ⟨rfl, hp, hi, hs⟩
+
+theorem tu_DC {m n : Nat} {M : Mat} (hwf : M.wf m n = true) {pos j : Nat} {s : Int} (hp : pos ≤ n) (hj : j < n)
+    (hs : s = 1 ∨ s = -1) : isTU m (n + 1) (insertCol M pos (fun k => s * ent M k j)) = isTU m n M :=
+  tu_colInsertion hwf (s := .DC pos j s) ⟨rfl, hp, hj, hs⟩
+
 /-- **Every step whose table entry for `tu` is `iff`, other than the GF(3) pivot, leaves the TU verdict unchanged.** -/
 theorem tu_step_iff {s : Step} (hnp : s.isPivot = false) (hrel : s.rel .tu = .iff) {m n : Nat} {M : Mat}
     {m' n' : Nat} {M' : Mat} (h : s.apply m n M = some (m', n', M')) (hwf : M.wf m n = true) :
@@ -183,6 +224,57 @@ theorem tu_steps {steps : List Step} (hnp : ∀ s ∈ steps, s.isPivot = false) 
       (fun s hs hrel m n M m' n' M' h hwf => tu_step_iff (by simpa using hs) hrel h hwf)
       (fun s hs hrel m n M m' n' M' h hwf hTU => tu_step_imp hrel h hTU)
       steps (fun s hs => by simp [hnp s hs]) m n M m' n' M' h hwf
+
+/-! ## 3b. Total unimodularity and the GF(3) pivot; ternary inputs -/
+
+/-- **A GF(3) pivot of a TU matrix is TU.** -/
+theorem tu_V3_yes {m n : Nat} {M : Mat} {r c : Nat} (hok : pivotOk3 m n M r c = true) (hTU : isTU m n M = true) :
+    isTU m n (pivot3 m n M r c) = true := isTU_pivot3 hTU hok
+
+/-- For a ternary matrix the TU verdict is the same before and after a GF(3) pivot.  (Ternarity is needed: `pivot3`
+reduces modulo 3, so a matrix with an entry `2` — not TU — can have a TU pivot.) -/
+theorem tu_V3 {m n : Nat} {M : Mat} (hwf : M.wf m n = true) (ht : isTernary M = true) {r c : Nat}
+    (hok : pivotOk3 m n M r c = true) : isTU m n (pivot3 m n M r c) = isTU m n M := isTU_pivot3_eq hwf ht hok
+
+/-- the hypothesis `isTernary` of `tu_V3` cannot be dropped -/
+example : pivotOk3 1 2 [[1, 2]] 0 0 = true ∧ isTU 1 2 [[1, 2]] = false ∧ isTU 1 2 (pivot3 1 2 [[1, 2]] 0 0) = true := by
+  decide
+
+/-- Every step maps ternary matrices to ternary matrices (the checker only relates verdicts of ternary inputs). -/
+theorem apply_ternary {m n : Nat} {M : Mat} {s : Step} {m' n' : Nat} {M' : Mat}
+    (h : s.apply m n M = some (m', n', M')) (hwf : M.wf m n = true) (ht : isTernary M = true) :
+    isTernary M' = true := Step.apply_ternary h hwf ht
+
+/-- **Every step whose table entry for `tu` is `iff` — the GF(3) pivot included — leaves the TU verdict of a ternary
+matrix unchanged.** -/
+theorem tu_step_iff_ternary {s : Step} (hrel : s.rel .tu = .iff) {m n : Nat} {M : Mat}
+    {m' n' : Nat} {M' : Mat} (h : s.apply m n M = some (m', n', M')) (hwf : M.wf m n = true)
+    (ht : isTernary M = true) : isTU m' n' M' = isTU m n M := by
+  by_cases hnp : s.isPivot = false
+  · exact tu_step_iff hnp hrel h hwf
+  · cases s <;> simp [Step.isPivot] at hnp
+    · simp [Step.rel, Cls.binaryOnly] at hrel
+    · rename_i r c
+      simp only [Step.apply] at h
+      split at h
+      · rename_i hok
+        simp only [Option.some.injEq, Prod.mk.injEq] at h
+        obtain ⟨rfl, rfl, rfl⟩ := h
+        exact isTU_pivot3_eq hwf ht hok
+      · cases h
+
+/-- **Lift to arbitrary step lists, ternary input**: combined relation `iff` gives equal TU verdicts, `imp` gives
+yes ⇒ yes (the GF(2) pivot has table entry `none` for `tu`, so lists containing it claim nothing). -/
+theorem tu_steps_ternary {steps : List Step} {m n : Nat} {M : Mat}
+    {m' n' : Nat} {M' : Mat} (h : applySteps m n M steps = some (m', n', M')) (hwf : M.wf m n = true)
+    (ht : isTernary M = true) :
+    ((stepsRel .tu steps).2 = .iff → isTU m' n' M' = isTU m n M) ∧
+    ((stepsRel .tu steps).2 = .imp → isTU m n M = true → isTU m' n' M' = true) :=
+  steps_lift_inv (c := .tu) rfl isTU (fun _ _ M => isTernary M = true)
+    (fun s m n M m' n' M' h hwf ht => Step.apply_ternary h hwf ht)
+    (fun s hrel m n M m' n' M' h hwf ht => tu_step_iff_ternary hrel h hwf ht)
+    (fun s hrel m n M m' n' M' h hwf _ hTU => tu_step_imp hrel h hTU)
+    steps m n M m' n' M' h hwf ht
 
 /-! ## 4. Transposition duality -/
 
@@ -320,6 +412,106 @@ theorem reg_steps {steps : List Step} (hnp : ∀ s ∈ steps, s.isPivot = false)
     (fun s hs hrel m n M m' n' M' h hwf hR => reg_step_imp hrel h hwf hR)
     steps (fun s hs => by simp [hnp s hs]) m n M m' n' M' h hwf
 
+/-! ## 6. Balancedness (class `bal`) -/
+
+/-- Transposition (C17). -/
+theorem bal_T {M : Mat} {m n : Nat} (hwf : M.wf m n = true) : isBalanced n m (transpose m n M) = isBalanced m n M :=
+  C17.isBalanced_transpose m n M hwf
+
+/-- Permutation. -/
+theorem bal_P {M : Mat} {m n : Nat} (hwf : M.wf m n = true) {rows cols : List Nat}
+    (hr : isPermOf rows m = true) (hc : isPermOf cols n = true) :
+    isBalanced m n (sub M rows cols) = isBalanced m n M := isBalanced_perm hwf hr hc
+
+/-- Submatrix along duplicate-free index lists in any order: yes implies yes. -/
+theorem bal_S {M : Mat} {m n : Nat} (hwf : M.wf m n = true) {rows cols : List Nat} (hr : ∀ x ∈ rows, x < m)
+    (hc : ∀ x ∈ cols, x < n) (hnr : rows.Nodup) (hnc : cols.Nodup) (h : isBalanced m n M = true) :
+    isBalanced rows.length cols.length (sub M rows cols) = true := isBalanced_sub hwf h rows cols hr hc hnr hnc
+
+/-- Negation of a row / a column. -/
+theorem bal_NR {M : Mat} {m n : Nat} (hwf : M.wf m n = true) (i : Nat) :
+    isBalanced m n (negRow M i) = isBalanced m n M := isBalanced_negRow hwf i
+
+theorem bal_NC {M : Mat} {m n : Nat} (hwf : M.wf m n = true) (j : Nat) :
+    isBalanced m n (negCol M j) = isBalanced m n M := isBalanced_negCol hwf j
+
+/-- Multiplying rows by signs `±1`. -/
+theorem bal_rowScale {M M' : Mat} {m n : Nat} (hwf : M.wf m n = true) (hwf' : M'.wf m n = true)
+    (u : Nat → Int) (hu : ∀ r, r < m → u r = 1 ∨ u r = -1)
+    (h : ∀ r, r < m → ∀ c, c < n → ent M' r c = u r * ent M r c) :
+    isBalanced m n M' = isBalanced m n M := isBalanced_rowScale hwf hwf' u hu h
+
+/-- Insertion of a zero row, a `±` unit row, a `±` copy of a row. -/
+theorem bal_rowInsertion {M : Mat} {m n : Nat} (hwf : M.wf m n = true) {s : Step} {pos : Nat}
+    (hs : s.rowInsOk m n pos) :
+    isBalanced (m + 1) n (insertRow M pos (s.newRow n M)) = isBalanced m n M := isBalanced_rowIns hwf hs
+
+/-- Insertion of a zero column, a `±` unit column, a `±` copy of a column. -/
+theorem bal_colInsertion {M : Mat} {m n : Nat} (hwf : M.wf m n = true) {s : Step} {pos : Nat}
+    (hs : s.colInsOk m n pos) :
+    isBalanced m (n + 1) (insertCol M pos (s.newCol M)) = isBalanced m n M := isBalanced_colIns hwf hs
+
+/-- **Every step whose table entry for `bal` is `iff` leaves the balancedness verdict unchanged** (pivots have entry
+`none` for `bal`; no ternarity hypothesis is needed: a matrix with another entry is not balanced, before and after). -/
+theorem bal_step_iff {s : Step} (hrel : s.rel .bal = .iff) {m n : Nat} {M : Mat}
+    {m' n' : Nat} {M' : Mat} (h : s.apply m n M = some (m', n', M')) (hwf : M.wf m n = true) :
+    isBalanced m' n' M' = isBalanced m n M := by
+  cases s with
+  | T =>
+    simp only [Step.apply, Option.some.injEq, Prod.mk.injEq] at h
+    obtain ⟨rfl, rfl, rfl⟩ := h
+    exact C17.isBalanced_transpose m n M hwf
+  | P rows cols =>
+    obtain ⟨hr, hc, rfl, rfl, rfl⟩ := apply_P_iff.mp h
+    exact isBalanced_perm hwf hr hc
+  | S rows cols => simp [Step.rel] at hrel
+  | V2 r c => simp [Step.rel, Cls.binaryOnly] at hrel
+  | V3 r c => simp [Step.rel, Cls.beq_eq_decide] at hrel
+  | NR i =>
+    obtain ⟨_, rfl, rfl, rfl⟩ := apply_NR_iff.mp h
+    exact isBalanced_negRow hwf i
+  | NC j =>
+    obtain ⟨_, rfl, rfl, rfl⟩ := apply_NC_iff.mp h
+    exact isBalanced_negCol hwf j
+  | ZR pos =>
+    obtain ⟨p, hs, rfl, rfl, rfl⟩ := apply_rowIns rfl h
+    exact isBalanced_rowIns hwf hs
+  | UR pos j sg =>
+    obtain ⟨p, hs, rfl, rfl, rfl⟩ := apply_rowIns rfl h
+    exact isBalanced_rowIns hwf hs
+  | DR pos i sg =>
+    obtain ⟨p, hs, rfl, rfl, rfl⟩ := apply_rowIns rfl h
+    exact isBalanced_rowIns hwf hs
+  | ZC pos =>
+    obtain ⟨p, hs, rfl, rfl, rfl⟩ := apply_colIns rfl h
+    exact isBalanced_colIns hwf hs
+  | UC pos i sg =>
+    obtain ⟨p, hs, rfl, rfl, rfl⟩ := apply_colIns rfl h
+    exact isBalanced_colIns hwf hs
+  | DC pos j sg =>
+    obtain ⟨p, hs, rfl, rfl, rfl⟩ := apply_colIns rfl h
+    exact isBalanced_colIns hwf hs
+
+/-- **A step whose table entry for `bal` is `imp` (a slice) maps yes to yes.** -/
+theorem bal_step_imp {s : Step} (hrel : s.rel .bal = .imp) {m n : Nat} {M : Mat}
+    {m' n' : Nat} {M' : Mat} (h : s.apply m n M = some (m', n', M')) (hwf : M.wf m n = true)
+    (hB : isBalanced m n M = true) : isBalanced m' n' M' = true := by
+  obtain ⟨rows, cols, rfl⟩ := rel_imp_isSlice hrel
+  obtain ⟨hr, hc, hnr, hnc, rfl, rfl, rfl⟩ := apply_S_iff.mp h
+  exact isBalanced_sub hwf hB rows cols hr hc hnr hnc
+
+/-- **Lift to step lists** for `bal` (every step list: pivots make the combined relation `none`). -/
+theorem bal_steps {steps : List Step} {m n : Nat} {M : Mat}
+    {m' n' : Nat} {M' : Mat} (h : applySteps m n M steps = some (m', n', M')) (hwf : M.wf m n = true) :
+    (stepsRel .bal steps).1 = .bal ∧
+    ((stepsRel .bal steps).2 = .iff → isBalanced m' n' M' = isBalanced m n M) ∧
+    ((stepsRel .bal steps).2 = .imp → isBalanced m n M = true → isBalanced m' n' M' = true) := by
+  refine ⟨stepsRel_class_selfdual rfl steps, ?_⟩
+  exact steps_lift (c := .bal) rfl isBalanced (fun _ => true)
+    (fun s _ hrel m n M m' n' M' h hwf => bal_step_iff hrel h hwf)
+    (fun s _ hrel m n M m' n' M' h hwf hB => bal_step_imp hrel h hwf hB)
+    steps (fun s hs => rfl) m n M m' n' M' h hwf
+
 /-! ## 7. Sums (class `tu`) -/
 
 /-- table entry: for `tu` the 1-sum relation is `both`, the 2-sum relation over GF(3) is `closed` -/
@@ -343,5 +535,179 @@ theorem sum2b_tu {m1 n1 : Nat} {M1 : Mat} {m2 n2 : Nat} {M2 : Mat} {c r : Nat} {
     (h : compose2b 3 m1 n1 M1 m2 n2 M2 c r = .ok P)
     (hTU1 : isTU m1 n1 M1 = true) (hTU2 : isTU m2 n2 M2 = true) :
     isTU (m1 + (m2 - 1)) ((n1 - 1) + n2) P = true := C12.compose2b_TU h hTU1 hTU2
+
+/-! ## 8. Series-parallel matrices (classes `spb`: `ternary = false`, `spt`: `ternary = true`) -/
+
+/-- Transposition. -/
+theorem sp_T {t : Bool} {m n : Nat} {M : Mat} (hwf : M.wf m n = true) :
+    isSPgreedy t n m (transpose m n M) = isSPgreedy t m n M := isSP_transpose hwf
+
+/-- Permutation. -/
+theorem sp_P {t : Bool} {M : Mat} {m n : Nat} (hwf : M.wf m n = true) {rows cols : List Nat}
+    (hr : isPermOf rows m = true) (hc : isPermOf cols n = true) :
+    isSPgreedy t m n (sub M rows cols) = isSPgreedy t m n M := isSP_perm hwf hr hc
+
+/-- Submatrix along duplicate-free index lists: yes implies yes. -/
+theorem sp_S {t : Bool} {m n : Nat} {M : Mat} {rows cols : List Nat} (hr : ∀ x ∈ rows, x < m) (hc : ∀ x ∈ cols, x < n)
+    (hnr : rows.Nodup) (hnc : cols.Nodup) (h : isSPgreedy t m n M = true) :
+    isSPgreedy t rows.length cols.length (sub M rows cols) = true := isSP_sub h rows cols hr hc hnr hnc
+
+/-- Ternary case: scaling rows and columns by signs. -/
+theorem sp_scale {m n : Nat} {M M' : Mat} (s u : Nat → Int) (hs : ∀ r, s r = 1 ∨ s r = -1)
+    (hu : ∀ c, u c = 1 ∨ u c = -1) (he : ∀ r, r < m → ∀ c, c < n → ent M' r c = s r * u c * ent M r c) :
+    isSPgreedy true m n M' = isSPgreedy true m n M := isSP_scale s u hs hu he
+
+/-- Insertion of a zero / unit / copied row; a negated copy only in the ternary case. -/
+theorem sp_rowInsertion {t : Bool} {M : Mat} {m n : Nat} (hwf : M.wf m n = true) {s : Step} {pos : Nat}
+    (hs : s.rowInsOk m n pos) (hsg : t = true ∨ s.unitSign = true) :
+    isSPgreedy t (m + 1) n (insertRow M pos (s.newRow n M)) = isSPgreedy t m n M := isSP_rowIns hwf hs hsg
+
+theorem sp_colInsertion {t : Bool} {M : Mat} {m n : Nat} (hwf : M.wf m n = true) {s : Step} {pos : Nat}
+    (hs : s.colInsOk m n pos) (hsg : t = true ∨ s.unitSign = true) :
+    isSPgreedy t m (n + 1) (insertCol M pos (s.newCol M)) = isSPgreedy t m n M := isSP_colIns hwf hs hsg
+
+/-- for the binary class, an insertion step with table entry `iff` has sign `+1` -/
+theorem sp_rel_sign {t : Bool} {s : Step} (hrel : s.rel (spCls t) = .iff) : t = true ∨ s.unitSign = true := by
+  cases t
+  · right
+    cases s <;> simp only [Step.unitSign] <;> rename_i p q sg <;>
+      · by_cases h : sg = 1
+        · simp [h]
+        · simp [spCls, Step.rel, Cls.beq_eq_decide, Cls.binaryOnly, h] at hrel
+  · exact Or.inl rfl
+
+/-- **Every non-pivot step whose table entry for the series-parallel class is `iff` leaves the verdict unchanged.** -/
+theorem sp_step_iff {t : Bool} {s : Step} (hnp : s.isPivot = false) (hrel : s.rel (spCls t) = .iff) {m n : Nat} {M : Mat}
+    {m' n' : Nat} {M' : Mat} (h : s.apply m n M = some (m', n', M')) (hwf : M.wf m n = true) :
+    isSPgreedy t m' n' M' = isSPgreedy t m n M := by
+  have hsg := sp_rel_sign hrel
+  cases s with
+  | T =>
+    simp only [Step.apply, Option.some.injEq, Prod.mk.injEq] at h
+    obtain ⟨rfl, rfl, rfl⟩ := h
+    exact isSP_transpose hwf
+  | P rows cols =>
+    obtain ⟨hr, hc, rfl, rfl, rfl⟩ := apply_P_iff.mp h
+    exact isSP_perm hwf hr hc
+  | S rows cols => simp [Step.rel] at hrel
+  | V2 r c => simp [Step.isPivot] at hnp
+  | V3 r c => simp [Step.isPivot] at hnp
+  | NR i =>
+    obtain ⟨_, rfl, rfl, rfl⟩ := apply_NR_iff.mp h
+    cases t
+    · simp [spCls, Step.rel, Cls.binaryOnly] at hrel
+    · exact isSP_negRow M i
+  | NC j =>
+    obtain ⟨_, rfl, rfl, rfl⟩ := apply_NC_iff.mp h
+    cases t
+    · simp [spCls, Step.rel, Cls.binaryOnly] at hrel
+    · exact isSP_negCol M j
+  | ZR pos =>
+    obtain ⟨p, hs, rfl, rfl, rfl⟩ := apply_rowIns rfl h
+    exact isSP_rowIns hwf hs hsg
+  | UR pos j sg =>
+    obtain ⟨p, hs, rfl, rfl, rfl⟩ := apply_rowIns rfl h
+    exact isSP_rowIns hwf hs hsg
+  | DR pos i sg =>
+    obtain ⟨p, hs, rfl, rfl, rfl⟩ := apply_rowIns rfl h
+    exact isSP_rowIns hwf hs hsg
+  | ZC pos =>
+    obtain ⟨p, hs, rfl, rfl, rfl⟩ := apply_colIns rfl h
+    exact isSP_colIns hwf hs hsg
+  | UC pos i sg =>
+    obtain ⟨p, hs, rfl, rfl, rfl⟩ := apply_colIns rfl h
+    exact isSP_colIns hwf hs hsg
+  | DC pos j sg =>
+    obtain ⟨p, hs, rfl, rfl, rfl⟩ := apply_colIns rfl h
+    exact isSP_colIns hwf hs hsg
+
+/-- **A slice maps yes to yes.** -/
+theorem sp_step_imp {t : Bool} {s : Step} (hrel : s.rel (spCls t) = .imp) {m n : Nat} {M : Mat}
+    {m' n' : Nat} {M' : Mat} (h : s.apply m n M = some (m', n', M'))
+    (hSP : isSPgreedy t m n M = true) : isSPgreedy t m' n' M' = true := by
+  obtain ⟨rows, cols, rfl⟩ := rel_imp_isSlice hrel
+  obtain ⟨hr, hc, hnr, hnc, rfl, rfl, rfl⟩ := apply_S_iff.mp h
+  exact isSP_sub hSP rows cols hr hc hnr hnc
+
+/-- **Lift to step lists** for `spb` (`t = false`) and `spt` (`t = true`). -/
+theorem sp_steps {t : Bool} {steps : List Step} (hnp : ∀ s ∈ steps, s.isPivot = false) {m n : Nat} {M : Mat}
+    {m' n' : Nat} {M' : Mat} (h : applySteps m n M steps = some (m', n', M')) (hwf : M.wf m n = true) :
+    (stepsRel (spCls t) steps).1 = spCls t ∧
+    ((stepsRel (spCls t) steps).2 = .iff → isSPgreedy t m' n' M' = isSPgreedy t m n M) ∧
+    ((stepsRel (spCls t) steps).2 = .imp → isSPgreedy t m n M = true → isSPgreedy t m' n' M' = true) := by
+  have hd : (spCls t).dual = spCls t := by cases t <;> rfl
+  refine ⟨stepsRel_class_selfdual hd steps, ?_⟩
+  exact steps_lift (c := spCls t) hd (isSPgreedy t) (fun s => !s.isPivot)
+    (fun s hs hrel m n M m' n' M' h hwf => sp_step_iff (by simpa using hs) hrel h hwf)
+    (fun s hs hrel m n M m' n' M' h hwf hSP => sp_step_imp hrel h hSP)
+    steps (fun s hs => by simp [hnp s hs]) m n M m' n' M' h hwf
+
+/-! ## Non-vacuity: every kind of step applies to a concrete 3 × 4 network matrix -/
+
+/-- the base matrix is well-formed, TU and balanced -/
+example : isTU 3 4 [[1, -1, 0, 1], [0, 1, 1, 0], [0, 0, 1, 1]] = true ∧
+    isBalanced 3 4 [[1, -1, 0, 1], [0, 1, 1, 0], [0, 0, 1, 1]] = true ∧
+    Mat.wf [[1, -1, 0, 1], [0, 1, 1, 0], [0, 0, 1, 1]] 3 4 = true := by decide
+
+/-- each step kind is applicable (the `some` hypotheses of the step theorems are satisfiable) -/
+example :
+    Step.T.apply 3 4 [[1, -1, 0, 1], [0, 1, 1, 0], [0, 0, 1, 1]] = some (4, 3, [[1, 0, 0], [-1, 1, 0], [0, 1, 1], [1, 0, 1]]) ∧
+    (Step.P [2, 0, 1] [3, 1, 0, 2]).apply 3 4 [[1, -1, 0, 1], [0, 1, 1, 0], [0, 0, 1, 1]] =
+      some (3, 4, [[1, 0, 0, 1], [1, -1, 1, 0], [0, 1, 0, 1]]) ∧
+    (Step.S [2, 0] [3, 1, 0]).apply 3 4 [[1, -1, 0, 1], [0, 1, 1, 0], [0, 0, 1, 1]] = some (2, 3, [[1, 0, 0], [1, -1, 1]]) := by
+  decide
+
+example :
+    (Step.NR 1).apply 3 4 [[1, -1, 0, 1], [0, 1, 1, 0], [0, 0, 1, 1]] = some (3, 4, [[1, -1, 0, 1], [0, -1, -1, 0], [0, 0, 1, 1]]) ∧
+    (Step.NC 3).apply 3 4 [[1, -1, 0, 1], [0, 1, 1, 0], [0, 0, 1, 1]] = some (3, 4, [[1, -1, 0, -1], [0, 1, 1, 0], [0, 0, 1, -1]]) ∧
+    (Step.V3 0 1).apply 3 4 [[1, -1, 0, 1], [0, 1, 1, 0], [0, 0, 1, 1]] = some (3, 4, [[-1, 1, 0, -1], [1, -1, 1, 1], [0, 0, 1, 1]]) := by
+  decide
+
+example :
+    (Step.ZR 1).apply 3 4 [[1, -1, 0, 1], [0, 1, 1, 0], [0, 0, 1, 1]] =
+      some (4, 4, [[1, -1, 0, 1], [0, 0, 0, 0], [0, 1, 1, 0], [0, 0, 1, 1]]) ∧
+    (Step.ZC 4).apply 3 4 [[1, -1, 0, 1], [0, 1, 1, 0], [0, 0, 1, 1]] =
+      some (3, 5, [[1, -1, 0, 1, 0], [0, 1, 1, 0, 0], [0, 0, 1, 1, 0]]) := by decide
+
+example :
+    (Step.UR 3 2 (-1)).apply 3 4 [[1, -1, 0, 1], [0, 1, 1, 0], [0, 0, 1, 1]] =
+      some (4, 4, [[1, -1, 0, 1], [0, 1, 1, 0], [0, 0, 1, 1], [0, 0, -1, 0]]) ∧
+    (Step.UC 0 1 1).apply 3 4 [[1, -1, 0, 1], [0, 1, 1, 0], [0, 0, 1, 1]] =
+      some (3, 5, [[0, 1, -1, 0, 1], [1, 0, 1, 1, 0], [0, 0, 0, 1, 1]]) := by decide
+
+example :
+    (Step.DR 2 0 (-1)).apply 3 4 [[1, -1, 0, 1], [0, 1, 1, 0], [0, 0, 1, 1]] =
+      some (4, 4, [[1, -1, 0, 1], [0, 1, 1, 0], [-1, 1, 0, -1], [0, 0, 1, 1]]) ∧
+    (Step.DC 1 3 1).apply 3 4 [[1, -1, 0, 1], [0, 1, 1, 0], [0, 0, 1, 1]] =
+      some (3, 5, [[1, 1, -1, 0, 1], [0, 0, 1, 1, 0], [0, 1, 0, 1, 1]]) := by decide
+
+/-- a step list that applies, with combined relation `imp` for `tu` … -/
+example :
+    applySteps 3 4 [[1, -1, 0, 1], [0, 1, 1, 0], [0, 0, 1, 1]]
+      [.T, .P [3, 1, 0, 2] [2, 0, 1], .NR 1, .ZC 1, .UR 4 2 (-1), .DC 0 3 (-1), .S [4, 0, 2] [1, 3, 0]] =
+        some (3, 3, [[0, -1, 0], [1, 1, 0], [0, 1, 0]]) ∧
+    stepsRel .tu [.T, .P [3, 1, 0, 2] [2, 0, 1], .NR 1, .ZC 1, .UR 4 2 (-1), .DC 0 3 (-1), .S [4, 0, 2] [1, 3, 0]] = (.tu, .imp) := by
+  decide
+
+/-- … `iff` for `bal` without the slice, `iff` from `gra` to `cog`, and `none` for `reg` once a row is negated -/
+example :
+    stepsRel .bal [.T, .P [3, 1, 0, 2] [2, 0, 1], .NR 1, .ZC 1, .UR 4 2 (-1), .DC 0 3 (-1)] = (.bal, .iff) ∧
+    stepsRel .gra [.T, .P [3, 1, 0, 2] [2, 0, 1], .ZC 1, .UR 4 2 1, .DC 0 3 1] = (.cog, .iff) ∧
+    stepsRel .reg [.T, .NR 1] = (.reg, .none) := by decide
+
+/-- regularity: a regular 0/1 matrix that is not TU, and a list of steps that are all `iff` for `reg` -/
+example :
+    isRegular 4 [[1, 1, 0, 1], [0, 1, 1, 0], [1, 0, 1, 1]] = true ∧ isTU 3 4 [[1, 1, 0, 1], [0, 1, 1, 0], [1, 0, 1, 1]] = false ∧
+    stepsRel .reg [.T, .ZR 1, .UC 2 0 1, .DR 0 3 1] = (.reg, .iff) := by decide
+
+example :
+    applySteps 3 4 [[1, 1, 0, 1], [0, 1, 1, 0], [1, 0, 1, 1]] [.T, .ZR 1, .UC 2 0 1, .DR 0 3 1] =
+      some (6, 4, [[0, 1, 0, 1], [1, 0, 1, 1], [0, 0, 0, 0], [1, 1, 0, 0], [0, 1, 0, 1], [1, 0, 0, 1]]) := by decide
+
+/-- the lifted theorem applied: the slice at the end of the list above is TU because the base matrix is -/
+example : isTU 3 3 [[0, -1, 0], [1, 1, 0], [0, 1, 0]] = true :=
+  (tu_steps (steps := [.T, .P [3, 1, 0, 2] [2, 0, 1], .NR 1, .ZC 1, .UR 4 2 (-1), .DC 0 3 (-1), .S [4, 0, 2] [1, 3, 0]])
+    (by decide) (m := 3) (n := 4) (M := [[1, -1, 0, 1], [0, 1, 1, 0], [0, 0, 1, 1]]) (by decide) (by decide)).2.2
+    (by decide) (by decide)
 
 end Cmr.Props.C10
